@@ -29,6 +29,7 @@ type RunSpec struct {
 	TimeQ        int              `json:"time_s_quick"`
 	TimeT        int              `json:"time_s_thorough"`
 	MaxSteps     int64            `json:"max_steps"`
+	MaxAlloc     int              `json:"max_alloc"` // largest slice (elements) a harness run may allocate; default 1 Mi
 	Solver       string           `json:"solver"`
 	SolverMs     int              `json:"solver_ms"`
 	ThoroughOnly bool             `json:"thorough_only"`
@@ -209,7 +210,7 @@ func cmdCheck(args []string) {
 		}
 		for _, vr := range variants {
 			params := mergeParams(base, vr)
-			cfg := Config{Harness: rs.Fn, Workers: runtime.NumCPU(), MaxSteps: rs.MaxSteps, SolverMs: rs.SolverMs, Params: params,
+			cfg := Config{Harness: rs.Fn, Workers: runtime.NumCPU(), MaxSteps: rs.MaxSteps, MaxAlloc: rs.MaxAlloc, SolverMs: rs.SolverMs, Params: params,
 				WitnessEvery: rs.WitnessEvery, Seed: seed, Solver: solverKindOf(rs.Solver)}
 			if rs.Workers > 0 {
 				cfg.Workers = rs.Workers
